@@ -272,6 +272,9 @@ def plan_runs(chk):
     if not q:
         add("free02x", gen_cfg([0, 2], 3, ["X", "S"], ["RX"], ["CX"], ["CRX"], ["PHASE", "CPHASE"], "RotKTiny", "PhaseKTiny",
                                inv=S_INV_LIGHT), dict(qs=[0, 2], role="free"), workers=8)
+        # every circuit of length <= 4 over a NON-commuting alphabet (RX / CRX / CNOT / SWAP): all interleavings
+        add("free4x", gen_cfg([0, 1], 4, [], ["RX"], ["CNOT"], ["CRX"], ["SWAP"], "RotKPair", "PhaseKTiny",
+                              inv=["MergeOK", "CancelStrictOK", "SimplifyStrictOK"]), dict(qs=[0, 1], role="free"), workers=8)
         add("pairs3c2", gen_cfg([0, 1, 2], 2, [], [], ["CNOT", "CX", "CZ"], ALLCR, ["CPHASE", "CSWAP"], "RotKMid", "PhaseKSmall",
                                 maxctrl=2, mode="pairs", inv=S_INV_LIGHT), dict(qs=[0, 1, 2], role="pairs"), workers=8)
     # C..F: random longer circuits (tlc -simulate), qubit sets with gaps / wide indices, variational flags, 2 controls
